@@ -1,6 +1,7 @@
 import ColoVerif.Proofs.GridGroup
 import ColoVerif.Proofs.GridCircuit
 import ColoVerif.Proofs.GridSched
+import ColoVerif.Proofs.GeomTie
 /-
 C16 — density bins account for all free area; every cell is in exactly one bin.
 
@@ -238,5 +239,46 @@ example :
 example :
     ((HState.init (DGrid.ofRegions 4 [⟨0, 10, 0, 2⟩, ⟨2, 7, 2, 4⟩]) [3, 0, 2]).run
       [.refineX, .rebisect 0 0 1 0 [0] 1]).bins = [[[0, 2]], [[]]] := by decide
+
+/-- The shared geometry layer under the density-grid model is *translated from the C++ source*: the definitions
+of `Gen/GeomFns.lean`, regenerated on every run from the clang AST of the bodies of `Rectangle(int,int,int,int)`,
+`Rectangle::width / height / area / intersects / intersection`, `isTurn`, `Circuit::isFixed / isObstruction /
+placedWidth / placedHeight / placement / area` and of the loops of `Circuit::rowHeight()` and
+`Circuit::computePlacementArea()`, are equal to the hand-written `Rect.*` / `Cell.*` / `Circuit.rowHeight` /
+`Circuit.placementArea` that bin capacities (`intersects`, `intersection`, `area`), `DGrid.ofCircuit` and the cell
+demands are written in — `computePlacementArea` under the decidable hypothesis that the row coordinates are C++
+`int`s (its INT_MAX / INT_MIN sentinels; `GeomTie.RowsInInt`, non-vacuity example in `Proofs/GeomTie.lean`).  A
+semantic change of one of these bodies breaks this theorem. -/
+theorem geometry_layer_translated :
+    Gen.Geom.Rectangle_ctor = Rect.mk ∧
+    Gen.Geom.Rectangle_width = Rect.width ∧
+    Gen.Geom.Rectangle_height = Rect.height ∧
+    Gen.Geom.Rectangle_area = Rect.area ∧
+    Gen.Geom.Rectangle_intersects = Rect.intersects ∧
+    Gen.Geom.Rectangle_intersection = Rect.intersection ∧
+    Gen.Geom.isTurn = Orient.isTurn ∧
+    Gen.Geom.Circuit_isFixed = Cell.fixed ∧
+    Gen.Geom.Circuit_isObstruction = Cell.obstruction ∧
+    Gen.Geom.Circuit_placedWidth = Cell.placedWidth ∧
+    Gen.Geom.Circuit_placedHeight = Cell.placedHeight ∧
+    Gen.Geom.Circuit_placement = Cell.placement ∧
+    (∀ cl : Cell, Gen.Geom.Circuit_area cl = cl.w * cl.h) ∧
+    Gen.Geom.Circuit_rowHeight = Circuit.rowHeight ∧
+    (∀ c : Circuit, GeomTie.RowsInInt c → Gen.Geom.Circuit_computePlacementArea c = c.placementArea) :=
+  ⟨GeomTie.gen_Rectangle_ctor_eq_model,
+   GeomTie.gen_Rectangle_width_eq_model,
+   GeomTie.gen_Rectangle_height_eq_model,
+   GeomTie.gen_Rectangle_area_eq_model,
+   GeomTie.gen_Rectangle_intersects_eq_model,
+   GeomTie.gen_Rectangle_intersection_eq_model,
+   GeomTie.gen_isTurn_eq_model,
+   GeomTie.gen_Circuit_isFixed_eq_model,
+   GeomTie.gen_Circuit_isObstruction_eq_model,
+   GeomTie.gen_Circuit_placedWidth_eq_model,
+   GeomTie.gen_Circuit_placedHeight_eq_model,
+   GeomTie.gen_Circuit_placement_eq_model,
+   (fun _ => rfl),
+   GeomTie.gen_Circuit_rowHeight_eq_model,
+   GeomTie.gen_Circuit_computePlacementArea_eq_model⟩
 
 end ColoVerif.C16
